@@ -164,7 +164,8 @@ func (x *walFaultRun) engineOn(newest []byte) string {
 		return "manifesterr"
 	}
 	x.writeDir(filepath.Join(d, "wal"), newest)
-	return recoverAndProbe(d, false)
+	// the fragmented post-recovery write comes first for every other damaged image (right behind whatever the recovery left)
+	return recoverAndProbe(d, (len(newest)+int(crc32.ChecksumIEEE(newest)))%2 == 0)
 }
 
 func (x *walFaultRun) step(ws []string) (out string) {
